@@ -127,7 +127,7 @@ def configs(rnd, quick):
     fixed = fixed + [w for d in fixed for w in pv.variants(d)] + [
         ["DUnion", [["DEnum", [["PNone"]]], ["DInt"]]], ["DUnion", [["DStr"], ["DEnum", [["PNone"]]]]]]
     rand = []
-    for _ in range(45 if quick else 450):
+    for _ in range(80 if quick else 700):
         d = pv.gen_desc(rnd, 3)
         while has_mapped_compound(d):      # F19: only the fixed corpus histories exercise that shape
             d = pv.gen_desc(rnd, 3)
@@ -141,7 +141,7 @@ def gen_cases(ctx, rnd):
     quick = ctx.tier == "quick"
     cases = corpus()
     fixed, rand = configs(rnd, quick)
-    per_fixed, per_rand, maxlen = (4, 3, 4) if quick else (40, 12, 8)
+    per_fixed, per_rand, maxlen = (7, 5, 4) if quick else (60, 15, 8)
     # every fixed configuration meets the key atoms once (None, bool, int, float, NaN, str, tuple, instance, class, ...)
     key_atoms = [["PNone"], ["PBool", True], ["PInt", 1], ["PFloat", pv.F(0.5)], ["PFloat", pv.NAN], pv.S("a"),
                  ["PTuple", [["PInt", 1], ["PInt", 2]]], ["PObj", 100, 1], ["PType", 100], ["PCallable", 1],
